@@ -420,6 +420,20 @@ def part_b(chk, full_bits):
         check_biterrors(chk, np.full(u2.size, u2[i], dtype=np.uint64), u2, "uint64_full_range_1d")
     mu = (u2.size // 6) * 6
     check_biterrors(chk, u2[-mu:].reshape(6, mu // 6), u2[::-1][-mu:].reshape(6, mu // 6), "uint64_full_range_2d")
+    # long arrays (sizes around and beyond powers of two up to 2^18+5, not only multiples of a block
+    # size a blocked implementation might use): errors concentrated in the last elements as well
+    sizes = [4095, 4097, 65535, 65536, 65537, 131071, 131073, 200001, 2 ** 18 + 5]
+    if chk.tier == "thorough":
+        sizes += [2 ** 20 + 3, 3 * 2 ** 19 + 1]
+    for n in sizes:
+        a = np.arange(n, dtype=np.int64)
+        b = a.copy()
+        tail = max(1, n % 4096 or 7)
+        b[-tail:] ^= np.int64(0x5A5A5)                  # errors only in the left-over region
+        check_biterrors(chk, a, b, "int64_long_tail_errors")
+        check_biterrors(chk, a, a[::-1].copy(), "int64_long")
+        if n % 3 == 0:
+            check_biterrors(chk, a.reshape(3, n // 3), a[::-1].copy().reshape(3, n // 3), "int64_long_2d")
     lo = v2[v2 < 2 ** 31 - 1]
     check_biterrors(chk, lo.astype(np.int32), lo[::-1].astype(np.int32), "int32_1d")
     check_biterrors(chk, lo.astype(np.uint32), lo[::-1].astype(np.uint32), "uint32_1d")
